@@ -1,6 +1,9 @@
 """C09 — a parametric p-box encloses every distribution of its parameter box.
 
-proof  : Pun.Props.C09 (corner envelope of a coordinatewise-monotone quantile encloses every member;
+proof  : Pun.Props.C09Gen (translator/param.py -> Gen/ParamGen.lean: the source's corner enumeration, min/max reductions,
+         levels, positional/keyword splitting and moment guard, each proved equal to the hand model; 2^k corners, all
+         vertices; enclosure re-proved for the generated bounds) and
+         Pun.Props.C09 (corner envelope of a coordinatewise-monotone quantile encloses every member;
          loc-scale / exp∘loc-scale / gamma instances; point parameters degenerate; moment hulls;
          bespoke uniform within one probability step and its exact moments; exponential_by_lambda)
 tie    : pba.normal/lognormal/exponential/gumbel_r/logistic/laplace/rayleigh/gamma, pba.uniform,
@@ -885,7 +888,20 @@ def run(ctx: core.Check, cases=None):
                        "moments derived by the constructor itself (family moments not fitting the discretised support) are not modelled: "
                        "the model answers 'none', the oracle judges the library's real values on a budgeted subset",
                        "string parameters and vector Interval parameters are not exercised"]
-    ctx.lean_stage(["Pun.Props.C09"])
+    gen_out = core.LEAN / "Pun/Gen/ParamGen.lean"
+    gen_name = "pbox_parametric.py corner enumeration, reductions, levels, call splitting, moment guard"
+    mods = ["Pun.Props.C09"]
+    try:
+        info = _gen(gen_out)
+        mods.append("Pun.Props.C09Gen")
+        gens = [(gen_name, lambda: info)]
+    except Exception as e:      # source not of the recognised form: the generated part is not claimed (no stale Gen file is audited)
+        err = e
+
+        def _raise():
+            raise err
+        gens = [(gen_name, _raise)]
+    ctx.lean_stage(mods, generators=gens)
     _mark_stub()
     from pyuncertainnumber.pba.params import Params
     if len(Params.p_values) != N or any(float(a) != float(b) for a, b in zip(Params.p_values, P)):
@@ -972,6 +988,11 @@ def run(ctx: core.Check, cases=None):
     for cj, what in OPERAND_CHANGES:
         ctx.fail({"kind": cj["kind"], "fam": cj.get("fam", cj["kind"]), "check": "operand-modified"}, cj, f"the call modified its {what}")
     del OPERAND_CHANGES[:]
+
+
+def _gen(out):
+    from .translator import param as tr
+    return tr.generate(core.REPO, out)
 
 
 def replay(obj):
